@@ -46,10 +46,10 @@ import (
 var bufNameRe = regexp.MustCompile(`(?i)^(buf|pool)`)
 
 type fnSummary struct {
-	wParams map[int]bool
+	wParams   map[int]bool
 	wParamWit map[int]string
-	wBufs   map[string]string // path -> witness
-	retBuf  string
+	wBufs     map[string]string // path -> witness
+	retBuf    string
 }
 
 type effects struct {
@@ -697,7 +697,7 @@ func scanBufState(c *core.Ctx) []ob {
 		wits := bsWit{}
 		type viol struct {
 			buf, by, clob string
-			pos          token.Pos
+			pos           token.Pos
 		}
 		var viols []viol
 		step := func(nd ast.Node, s bsState, record bool) bsState {
